@@ -42,6 +42,9 @@ def job_messages(spec: dict, t: str, oc: dict) -> Tuple[List[str], bool]:
     final = oc.get('final') or default_final(spec, t)
     if final == 'submit-fail':
         return [], False
+    if final == 'vanish':
+        # submission succeeds, the job then disappears without starting
+        return [], 'vanish'
     msgs = ['started']
     skip = set(oc.get('skip') or ())
     for nm, msg in spec.get('custom', {}).get(t, {}).items():
@@ -56,6 +59,8 @@ def job_outputs(spec: dict, t: str, oc: dict) -> Set[str]:
     final = oc.get('final') or default_final(spec, t)
     if final == 'submit-fail':
         return {'submit-failed'}
+    if final == 'vanish':
+        return {'submitted', 'submit-failed'}
     outs = {'submitted', 'started'}
     skip = set(oc.get('skip') or ())
     for nm in spec.get('custom', {}).get(t, {}):
